@@ -1,0 +1,22 @@
+//go:build verif
+
+package rag
+
+import "github.com/tsawler/tabula/model"
+
+// VerifSections returns the sections buildSections makes, in the order Chunk
+// walks them (a parent, then its children).
+func VerifSections(c *Chunker, doc *model.Document) []*Section {
+	var out []*Section
+	var walk func(s *Section)
+	walk = func(s *Section) {
+		out = append(out, s)
+		for _, ch := range s.Children {
+			walk(ch)
+		}
+	}
+	for _, s := range c.buildSections(doc) {
+		walk(s)
+	}
+	return out
+}
